@@ -6,6 +6,11 @@ layout / speclayout : one line = a type in prefix syntax
      T ::= p <ty_name> | e | ptr | a <len> T | f T | s <packed 0|1> <aligned n|-> <k> M*k | u <packed> <aligned> <k> M*k
      M ::= m <alignas n (0 = none)> <bit width|-> <named 0|1> T   |   M <bit width|-> <named 0|1> Ta T     (`_Alignas(Ta)`)
          | G <k> A*k <bit width|-> <named 0|1> T      with A ::= c <n> | t T     (k `_Alignas` specifiers in source order)
+  layout32 / layout32strict : as `layout`, with every `int` operation of struct_decl / union_decl / array_of explicit
+                      (Model/Layout32.lean): wrap-around (what the compiled code does; also `diag incomplete` for a member whose
+                      aggregate type has a wrapped, negative size) / signed overflow reported as `fail overflow`
+  regions           : one line = a type; answer `regions <k>*` / `regions -`: the known-finding regions (Spec/LayoutRegions
+                      `Ty.inRegion`) some aggregate of the type lies in
   var / specvar     : one line = `<k> A*k T` : alignment of an object declared `_Alignas(..)* T x;`  answer `ok <align>`
   answer `ok <size> <align>` followed, for struct/union, by ` | <offset> <bit_offset>` per member
   (speclayout: ` | <first bit> <unit offset> <bit in unit>`), or `fail divzero`, or `diag align` / `diag bitfield`
@@ -14,6 +19,8 @@ layout / speclayout : one line = a type in prefix syntax
 -/
 import ChibiVerif.Model.Layout
 import ChibiVerif.Spec.LayoutSpec
+import ChibiVerif.Spec.LayoutRegions
+import ChibiVerif.Model.Layout32
 
 namespace ChibiVerif.Driver
 open ChibiVerif.Layout ChibiVerif.Gen.Declspec
@@ -129,10 +136,36 @@ def layoutLine (line : String) : String :=
     | .error e => showTyFail e
   | _ => "bad-op"
 
+def showTyFail32 : TyFail32 → String
+  | .divByZero => "fail divzero"
+  | .overflow => "fail overflow"
+  | .badAlign => "diag align"
+  | .bitfieldType => "diag bitfield"
+  | .incompleteField => "diag incomplete"
+
+/-- the layout computed with explicit `int` arithmetic (Model/Layout32.lean), two's complement wrap-around (`wrap`, what the
+    compiled parse.c does) or with signed overflow as an outcome (`strict`) -/
+def layout32Line (md : IntMode) (line : String) : String :=
+  match parseTy (words line) with
+  | some (t, []) =>
+    match t.layout32 md with
+    | .ok l => showLayout l
+    | .error e => showTyFail32 e
+  | _ => "bad-op"
+
 def speclayoutLine (line : String) : String :=
   match parseTy (words line) with
   | some (t, []) =>
     if ChibiVerif.Spec.Layout.specAccepted t then showSpecLayout (ChibiVerif.Spec.Layout.specTy t) else "diag"
+  | _ => "bad-op"
+
+/-- which known-finding regions the description touches: `regions` followed by the region numbers
+    (0 packed-bitfield-straddle, 1 packed-member-alignas, 2 packed-union-bitfield), e.g. `regions 0 1`, or `regions -` -/
+def regionsLine (line : String) : String :=
+  match parseTy (words line) with
+  | some (t, []) =>
+    let ks := [0, 1, 2].filter fun k => t.inRegion k
+    if ks.isEmpty then "regions -" else "regions" ++ String.join (ks.map fun k => s!" {k}")
   | _ => "bad-op"
 
 def varLine (spec : Bool) (line : String) : String :=
@@ -160,8 +193,11 @@ def layoutMain (sub : String) : IO UInt32 := do
   | "specdecl" => lineLoop h specdeclLine
   | "layout" => lineLoop h layoutLine
   | "speclayout" => lineLoop h speclayoutLine
+  | "layout32" => lineLoop h (layout32Line .wrap)
+  | "layout32strict" => lineLoop h (layout32Line .strict)
+  | "regions" => lineLoop h regionsLine
   | "var" => lineLoop h (varLine false)
   | "specvar" => lineLoop h (varLine true)
-  | _ => IO.eprintln "usage: drv_c08 declspec|specdecl|layout|speclayout|var|specvar"; return 2
+  | _ => IO.eprintln "usage: drv_c08 declspec|specdecl|layout|layout32|layout32strict|speclayout|regions|var|specvar"; return 2
 
 end ChibiVerif.Driver
